@@ -51,7 +51,7 @@ def iso_request():
         '"source_iso_name":null,"hash":null}')
 
 
-def run(kind: str, plan: Plan, inject=None, status_cb="ok", t_end: float = T_END):
+def run(kind: str, plan: Plan, inject=None, status_cb="ok", t_end: float = T_END, client_kwargs: dict | None = None):
     """inject(sess) is called once the client exists; it schedules the disturbance(s)"""
     sess = vloop.Session(plan)
     state = {"last_disturbance": 0.0, "probe_fed": False, "deliveries_at_probe": 0}
@@ -72,6 +72,13 @@ def run(kind: str, plan: Plan, inject=None, status_cb="ok", t_end: float = T_END
         s.feed(conn, pkt)
 
     def on_accept(s, conn):
+        if client_kwargs and client_kwargs.get("build_network_map"):
+            # with network mapping on nothing of a source is delivered before it has claimed: the sources of the harness's
+            # frames claim first on every link (claims are deliveries too, never counted as due)
+            claims = b"".join(p for p, _ in cr.wire_packets(kind, [("raw", 60928, 10 + j, 255, 6, bytes.fromhex("e903e0e7008232c0"))
+                                                                 for j in range(3)], random.Random(0), with_bad=False))
+            s.at_time(s.loop.time() + 0.5, lambda: s.readers[conn].at_eof() or s.readers[conn].exception() is not None
+                      or s.writers[conn].closed or s.feed(conn, claims))
         s.at_time(s.loop.time() + 1.0, lambda: feed_valid(s, conn, a_pkt))
     plan.accept_hooks.append(on_accept)
 
@@ -92,7 +99,7 @@ def run(kind: str, plan: Plan, inject=None, status_cb="ok", t_end: float = T_END
             feed_valid(s, conn, p_pkt)
         s.at_time(t_end - 4.0, probe)
 
-    raw = sess.run(vloop.make_client_factory(kind), scenario, until=t_end, status_cb=status_cb)
+    raw = sess.run(vloop.make_client_factory(kind, **(client_kwargs or {})), scenario, until=t_end, status_cb=status_cb)
     end = raw[-1]
     # facts the harness knows about the scenario (not verdicts)
     last_refuse = max([e["t"] for e in raw if e["e"] == "OpenResult" and e["r"] == "refuse"] + [0.0])
@@ -126,6 +133,8 @@ def to_monitor(raw, settled: bool, probe_lost: bool, starved: bool):
         if e == "Call" and x["f"] in ("connect", "close"):
             out.append(ev("CallConnect" if x["f"] == "connect" else "CallClose", x))
         elif e == "Ret" and x["f"] in ("connect", "close"):
+            if x["f"] == "close" and x.get("exc") in ("TimeoutError", "CancelledError"):
+                continue                 # a close() the caller abandoned (wait_for) has not returned
             out.append(ev("RetConnect" if x["f"] == "connect" else "RetClose", x))
         elif e == "Open":
             out.append(ev("Open", x, k=x["k"]))
